@@ -21,23 +21,27 @@ demo = meta["demo_cmd"]
 demo = re.sub(r"cd\s+\S+\s*&&\s*", "", demo)
 demo = re.sub(r"CARGO_NET_OFFLINE=\S+\s*", "", demo)
 demo = re.sub(r"CARGO_TARGET_DIR=\S+\s*", "", demo)
-demo = demo.split("#")[0].strip()
+demo = demo.split("#")[0].split("   (")[0].split(" (equivalently")[0].strip()
 res["demo_cmd"] = demo
 rc1, out1 = sh(demo)
 res["demo_with_change_rc"] = rc1
 res["demo_with_change_tail"] = out1[-1500:]
 # suite with the change (demo test excluded by name is not possible generically: the demo is expected to be the only extra failure)
-rcs, outs = sh("cargo nextest run --workspace --no-fail-fast --offline --test-threads 8 2>&1 | grep -E 'FAIL|Summary' | sort -u")
+DEMO_ONLY = os.environ.get("DEMO_ONLY") == "1"
+prev = {}
+if DEMO_ONLY and os.path.exists(os.path.join("/verif/seeded", sid, "confirm.json")):
+    prev = json.load(open(os.path.join("/verif/seeded", sid, "confirm.json")))
+rcs, outs = (0, prev.get("suite_with_change", "")) if DEMO_ONLY else sh("cargo nextest run --workspace --no-fail-fast --offline --test-threads 8 2>&1 | grep -E 'FAIL|Summary' | sort -u")
 res["suite_with_change"] = outs[-3000:]
 # re-run every failing test alone (load-induced timing failures pass then)
-names = sorted(set(re.findall(r"FAIL \[[^\]]*\] \(\s*\d+/\d+\) \S+ (\S+)", outs)))
+names = [] if DEMO_ONLY else sorted(set(re.findall(r"FAIL \[[^\]]*\] \(\s*\d+/\d+\) \S+ (\S+)", outs)))
 still = []
 for nm in names:
     short = nm.split("::")[-1]
     rcx, outx = sh("cargo nextest run --workspace --offline --test-threads 1 --retries 2 -E 'test(%s)' 2>&1 | grep -E 'Summary'" % short)
     if rcx != 0 or "failed" in outx:
         still.append(nm)
-res["suite_failures_after_serial_rerun"] = still
+res["suite_failures_after_serial_rerun"] = prev.get("suite_failures_after_serial_rerun") if DEMO_ONLY else still
 sh("git apply -R %s/patch.diff" % src)
 rc2, out2 = sh(demo)
 res["demo_without_change_rc"] = rc2
